@@ -54,6 +54,7 @@ type run struct {
 	book      []*claimRec
 	contracts []common.Address // contracts[0] keeps what it receives; the others re-enter executeClaim
 	ibc       *ibcEnv          // group 5: IBC voucher alias (ibc_test.go)
+	payer     *helpers.Signer  // pays the fees of the signed Cosmos transactions (entry_test.go); not a tracked holder
 }
 
 // claimRec: one observed claim
@@ -696,7 +697,7 @@ func (r *run) send(c, g, u, n, fee int) {
 	w := r.w
 	grp := w.Groups[g]
 	r.exec(fmt.Sprintf("send %d %d %d %d %d", c, g, u, n, fee), func() string {
-		return w.Msg(&crosschaintypes.MsgSendToExternal{
+		return r.msg(u, &crosschaintypes.MsgSendToExternal{
 			Sender: w.Users[u].AccAddress().String(), Dest: helpers.GenExternalAddr(r.chain(c)),
 			Amount: sdk.NewCoin(grp.Base, si(n)), BridgeFee: sdk.NewCoin(grp.Base, si(fee)), ChainName: r.chain(c),
 		})
@@ -792,7 +793,7 @@ func (r *run) cancel(c, id, u int, pre bool, tx *poolRec) {
 		return
 	}
 	r.exec(fmt.Sprintf("cancel %d %d %d", c, id, u), func() string {
-		return w.Msg(&crosschaintypes.MsgCancelSendToExternal{TransactionId: uint64(id), Sender: w.Users[u].AccAddress().String(), ChainName: r.chain(c)})
+		return r.msg(u, &crosschaintypes.MsgCancelSendToExternal{TransactionId: uint64(id), Sender: w.Users[u].AccAddress().String(), ChainName: r.chain(c)})
 	}, exp, nil, nil, check)
 }
 
@@ -804,7 +805,7 @@ func (r *run) incfee(c, id, u, g, n int) {
 		denom = grp.Base
 	}
 	r.exec(fmt.Sprintf("incfee %d %d %d %d %d", c, id, u, g, n), func() string {
-		return w.Msg(&crosschaintypes.MsgIncreaseBridgeFee{ChainName: r.chain(c), TransactionId: uint64(id), Sender: w.Users[u].AccAddress().String(), AddBridgeFee: sdk.NewCoin(denom, si(n))})
+		return r.msg(u, &crosschaintypes.MsgIncreaseBridgeFee{ChainName: r.chain(c), TransactionId: uint64(id), Sender: w.Users[u].AccAddress().String(), AddBridgeFee: sdk.NewCoin(denom, si(n))})
 	}, map[[2]int]int{{u, g}: -n}, nil, nil, nil)
 }
 
@@ -940,7 +941,7 @@ func (r *run) bcout(c, u, ref int, ts []tok, pre bool) {
 		coins = append(coins, sdk.NewCoin(w.Groups[t.g].Base, si(t.n)))
 	}
 	r.exec(line, func() string {
-		return w.Msg(&crosschaintypes.MsgBridgeCall{ChainName: r.chain(c), Sender: w.Users[u].AccAddress().String(), Refund: w.Users[ref].AccAddress().String(),
+		return r.msg(u, &crosschaintypes.MsgBridgeCall{ChainName: r.chain(c), Sender: w.Users[u].AccAddress().String(), Refund: w.Users[ref].AccAddress().String(),
 			Coins: coins, To: helpers.GenExternalAddr(r.chain(c)), Value: sdkmath.ZeroInt()})
 	}, exp, nil, nil, check)
 }
@@ -1145,7 +1146,7 @@ func (r *run) ccoin(g, u, rc, n int) {
 	exp[[2]int{u, g}] -= n
 	exp[[2]int{rc, g}] += n
 	r.exec(fmt.Sprintf("ccoin %d %d %d %d", g, u, rc, n), func() string {
-		return w.Msg(&erc20types.MsgConvertCoin{Coin: sdk.NewCoin(w.Groups[g].Base, si(n)), Receiver: w.Users[rc].Address().Hex(), Sender: w.Users[u].AccAddress().String()})
+		return r.msg(u, &erc20types.MsgConvertCoin{Coin: sdk.NewCoin(w.Groups[g].Base, si(n)), Receiver: w.Users[rc].Address().Hex(), Sender: w.Users[u].AccAddress().String()})
 	}, exp, nil, nil, nil)
 }
 
@@ -1186,7 +1187,7 @@ func (r *run) cden(g, u, rc, n, src, dst int) {
 	exp[[2]int{u, g}] -= n
 	exp[[2]int{rc, g}] += n
 	r.exec(fmt.Sprintf("cden %d %d %d %d %s %s", g, u, rc, n, name(src), name(dst)), func() string {
-		return w.Msg(&erc20types.MsgConvertDenom{Sender: w.Users[u].AccAddress().String(), Receiver: w.Users[rc].AccAddress().String(), Coin: sdk.NewCoin(denom(src), si(n)), Target: target})
+		return r.msg(u, &erc20types.MsgConvertDenom{Sender: w.Users[u].AccAddress().String(), Receiver: w.Users[rc].AccAddress().String(), Coin: sdk.NewCoin(denom(src), si(n)), Target: target})
 	}, exp, nil, nil, nil)
 }
 
@@ -1903,7 +1904,7 @@ func TestC04(t *testing.T) {
 	out := hx.NewOut()
 	defer out.Close("correspondence: full ledger + in-flight records after every op (messages, claim handlers, precompile calls) on 3 users x 3 chains x 6 token groups (one with an IBC voucher alias on a real open channel); monitors: conservation, stated per-holder deltas, withdrawability, ERC-20 books. non-trivial = distinct (op, outcome class)")
 
-	nSeq := hx.N(30, 150)
+	nSeq := hx.N(30, 110) // thorough: 110 sequences x 150 ops (was 150: 28 min on a loaded machine, above the 20-min target)
 	nOps := hx.N(60, 150)
 	if v := hx.Tier(); v == "thorough" {
 		nOps = 150
@@ -1914,7 +1915,9 @@ func TestC04(t *testing.T) {
 		s := hx.NewSuite(t, 1)
 		w := bx.NewWorld(s)
 		ibc := addIbcGroup(w)
-		r := &run{w: w, out: out, rng: rng, ibc: ibc, initial: w.Held(), deposited: map[int]*big.Int{}, withdrawn: map[int]*big.Int{}, extLast: map[[2]int]int{}, extSupply: map[[2]int]*big.Int{}}
+		payer := helpers.NewSigner(helpers.NewEthPrivKey())
+		s.MintToken(payer.AccAddress(), sdk.NewCoin(fxtypes.DefaultDenom, sdkmath.NewInt(1e18).MulRaw(1e9)))
+		r := &run{payer: payer, w: w, out: out, rng: rng, ibc: ibc, initial: w.Held(), deposited: map[int]*big.Int{}, withdrawn: map[int]*big.Int{}, extLast: map[[2]int]int{}, extSupply: map[[2]int]*big.Int{}}
 		r.relayer = helpers.NewSigner(helpers.NewEthPrivKey()).AccAddress()
 		for c := range bx.Chains {
 			w.Keeper(c).SetOracleAddrByBridgerAddr(w.S.Ctx, r.relayer, helpers.NewSigner(helpers.NewEthPrivKey()).AccAddress())
@@ -1938,6 +1941,9 @@ func TestC04(t *testing.T) {
 		for i := 0; i < nOps; i++ {
 			r.randomOp()
 		}
+	}
+	if res := hx.Try(func() error { ibcPrefixProbe(t, out); return nil }); res != "ok" {
+		out.Stats.Extra["probe:ibc-channel-prefix:setup"] = res
 	}
 }
 
